@@ -412,7 +412,10 @@ impl<'a, T: Transport> Transferrer<'a, T> {
                 let dest_path = dest_path.to_path_buf();
                 let xattrs_clone = xattrs.clone();
 
-                tokio::task::spawn_blocking(move || {
+                // An attribute that cannot be set is a failure of this entry (it used to be a warning:
+                // with -X the run exited 0 and the destination lacked the attribute)
+                let failed = tokio::task::spawn_blocking(move || {
+                    let mut failed = None;
                     for (name, value) in xattrs_clone {
                         if let Err(e) = xattr::set(&dest_path, &name, &value) {
                             tracing::warn!(
@@ -421,13 +424,18 @@ impl<'a, T: Transport> Transferrer<'a, T> {
                                 dest_path.display(),
                                 e
                             );
+                            failed.get_or_insert(e);
                         } else {
                             tracing::debug!("Set xattr {} on {}", name, dest_path.display());
                         }
                     }
+                    failed
                 })
                 .await
                 .map_err(|e| SyncError::Io(std::io::Error::other(e.to_string())))?;
+                if let Some(e) = failed {
+                    return Err(SyncError::Io(e));
+                }
             }
         }
 
@@ -454,14 +462,17 @@ impl<'a, T: Transport> Transferrer<'a, T> {
             let wanted = file_entry.xattrs.clone().unwrap_or_default();
             let dest_path = dest_path.to_path_buf();
 
-            tokio::task::spawn_blocking(move || {
+            let failed = tokio::task::spawn_blocking(move || {
                 let Ok(names) = xattr::list(&dest_path) else {
-                    return; // not a local file, or attributes not supported
+                    return None; // not a local file, or attributes not supported
                 };
+                let mut failed = None;
                 for name in names {
                     let keep = name.to_str().is_some_and(|n| wanted.contains_key(n));
                     if !keep {
-                        let _ = xattr::remove(&dest_path, &name);
+                        if let Err(e) = xattr::remove(&dest_path, &name) {
+                            failed.get_or_insert(e);
+                        }
                     }
                 }
                 for (name, value) in &wanted {
@@ -473,12 +484,18 @@ impl<'a, T: Transport> Transferrer<'a, T> {
                                 dest_path.display(),
                                 e
                             );
+                            failed.get_or_insert(e);
                         }
                     }
                 }
+                failed
             })
             .await
             .map_err(|e| SyncError::Io(std::io::Error::other(e.to_string())))?;
+            // (an attribute that could not be brought in line is a failure of this entry)
+            if let Some(e) = failed {
+                return Err(SyncError::Io(e));
+            }
         }
 
         #[cfg(not(unix))]
